@@ -69,16 +69,18 @@ def gen_doc(rng, nested=True):
         if not src.endswith('\n\n') and src:
             src += '\n' if src.endswith('\n') else '\n\n'
         if s['style'] == 'atx':
-            h = '#' * s['level'] + ' ' + s['title'] + ((' ' + '#' * s['level']) if s['closing'] else '') + '\n'
+            # trailing blanks (two of them spell a hard line break anywhere else) or a backslash at the end of the heading line are not part of the title
+            trail = rng.choice(['', '', '', '  ', ' ', '   ']) if s['closing'] else rng.choice(['', '', '', '  ', ' ', '\\'])
+            h = '#' * s['level'] + ' ' + s['title'] + ((' ' + '#' * s['level']) if s['closing'] else '') + trail + '\n'
         else:
             h = s['title'] + '\n' + ('=' if s['level'] == 1 else '-') * 5 + '\n'
         s['hstart'] = len(src.encode('utf-8'))
         src += h
         s['hend'] = len(src.encode('utf-8'))
         src += '\n' + s['body']
-    if sections and not sections[-1]['body'] and rng.random() < 0.3:
+    if sections and not sections[-1]['body'] and not src.rstrip('\n').endswith('\\') and rng.random() < 0.3:          # (a backslash that ends the *input* is a literal backslash)
         # the input ends right after the last heading line (the '#' line or the Setext underline), without a final line break
-        src = src.rstrip('\n')
+        src = src.rstrip('\n').rstrip(' ')          # (a single blank after closing hashes at the very end of input keeps the hashes in the title, in every writer: parser territory)
         sections[-1]['hend'] = min(sections[-1]['hend'], len(src.encode('utf-8')))
     d.sections = sections
     d.meta = meta
